@@ -150,6 +150,10 @@ pub fn probes(profile: Profile, versions: &BTreeSet<u64>) -> Vec<(String, Search
   };
   // which documents are live, and their stored fields
   out.push(("stored: match_all".into(), req(json!({"query": {"type": "match_all"}, "limit": 10000, "return_stored": true}))));
+  // postings of the keyword field (the filters below read fast fields)
+  for t in ["red", "green", "blue", "grey"] {
+    out.push((format!("term tag:{}", t), base(json!({"type":"term","field":"tag","value":t}), None)));
+  }
   for w in ["alpha", "beta", "gamma", "delta", "omega", "sigma"] {
     out.push((format!("term body:{}", w), base(json!({"type":"term","field":"body","value":w}), None)));
   }
